@@ -53,7 +53,9 @@ from pydjinni.parser.type_model_builder import TypeModelBuilder
 def combine_into(d: dict, combined: dict) -> None:
     for k, v in d.items():
         if isinstance(v, dict):
-            combine_into(v, combined.setdefault(k, {}))
+            if not isinstance(combined.get(k), dict):
+                combined[k] = {}
+            combine_into(v, combined[k])
         else:
             combined[k] = v
 
@@ -237,6 +239,11 @@ class API:
                             raise ConfigurationException(f"Unknown configuration file extension: '{path.suffix}'")
             else:
                 config_dict = dict()
+            if config_dict is None:
+                config_dict = dict()
+            if not isinstance(config_dict, dict):
+                raise ConfigurationException("The configuration must be a mapping of keys to values",
+                                             position=Position(file=path))
             combine_into(options, config_dict)
             config = self._configuration_model.model_validate(config_dict)
             return API.ConfiguredContext(
